@@ -2936,6 +2936,67 @@ impl ModuleGraph {
   }
 }
 
+/// Verification hooks (see /verif): constructors and observers for the
+/// crate-private module slots. Only compiled with `--cfg deno_graph_verif`;
+/// used by the native replay binary to rebuild solver counterexamples.
+#[cfg(deno_graph_verif)]
+impl ModuleGraph {
+  pub fn verif_insert_module(
+    &mut self,
+    specifier: ModuleSpecifier,
+    module: Module,
+  ) {
+    self
+      .module_slots
+      .insert(specifier, ModuleSlot::Module(module));
+  }
+
+  pub fn verif_insert_error(
+    &mut self,
+    specifier: ModuleSpecifier,
+    error: ModuleError,
+  ) {
+    self.module_slots.insert(specifier, ModuleSlot::Err(error));
+  }
+
+  pub fn verif_insert_pending(
+    &mut self,
+    specifier: ModuleSpecifier,
+    is_asset: bool,
+  ) {
+    self
+      .module_slots
+      .insert(specifier, ModuleSlot::Pending { is_asset });
+  }
+
+  /// `BuiltInNodeModule` is not nameable outside the crate.
+  pub fn verif_insert_node_module(&mut self, specifier: ModuleSpecifier) {
+    self.module_slots.insert(
+      specifier.clone(),
+      ModuleSlot::Module(Module::Node(BuiltInNodeModule {
+        specifier,
+        module_name: "verif".to_string(),
+      })),
+    );
+  }
+
+  /// Slot kind per specifier: 0 = module, 1 = error, 2 = pending.
+  pub fn verif_slot_kinds(&self) -> Vec<(ModuleSpecifier, u8)> {
+    self
+      .module_slots
+      .iter()
+      .map(|(specifier, slot)| {
+        let kind = match slot {
+          ModuleSlot::Module(_) => 0,
+          ModuleSlot::Err(_) => 1,
+          ModuleSlot::Pending { .. } => 2,
+        };
+        (specifier.clone(), kind)
+      })
+      .collect()
+  }
+}
+
 /// Resolve a string specifier from a referring module, using the resolver if
 /// present, returning the resolution result.
 fn resolve(
